@@ -94,6 +94,6 @@ def main():
          "checks": checks, "not_applicable": na,
          "notes": "exit 2 = undecided (never an alarm). known findings: /verif/known_findings.json"}
     json.dump(m, open(os.path.join(VERIF, "MANIFEST.json"), "w"), indent=1)
-SOURCE_COMMITS = ['804447c', '2d7ebd3', '3958b62', 'cf14a0b', 'bc6d031', '5d5037d', '886d0bc', '378bd5c']
+SOURCE_COMMITS = ['804447c', '2d7ebd3', '3958b62', 'cf14a0b', 'bc6d031', '5d5037d', '886d0bc', '378bd5c', '5853f91']
 if __name__ == "__main__":
     main()
